@@ -336,7 +336,7 @@ func (r *muxRig) runCase(stream []byte, evs []ev, sizes []int, drain bool) (o mu
 	// oracle only (not compared with the model): keep reading until the connection ends
 	o.drained = append([]byte(nil), o.all...)
 	o.drainErr = o.lastErr
-	for i := 0; drain && i < 1<<16 && (o.drainErr == "-" || o.drainErr == ""); i++ {
+	for i := 0; drain && i < 1<<16 && (o.drainErr == "-" || o.drainErr == "") && len(o.drained) <= len(stream)+64; i++ {
 		buf := make([]byte, 8192)
 		n, err := got.conn.Read(buf)
 		o.drained = append(o.drained, buf[:n]...)
@@ -665,7 +665,7 @@ func runLoopback(c *Ctx) {
 				for {
 					n, err := conn.Read(tmp)
 					buf = append(buf, tmp[:n]...)
-					if err != nil {
+					if err != nil || len(buf) > 1<<20 {
 						break
 					}
 				}
@@ -1004,7 +1004,7 @@ func runOpsImpl(k opsCase) (out string, views [][]byte, svc []byte, pan string) 
 	bl, br, bs, sn, dr := v.State()
 	if k.protocol && isCleanEvs(k.evs) {
 		// oracle only: read on until the end (state was captured above)
-		for i := 0; i < 1<<16; i++ {
+		for i := 0; i < 1<<16 && len(svc) <= len(k.stream)+64; i++ {
 			buf := make([]byte, 8192)
 			n, err := rd.Read(buf)
 			svc = append(svc, buf[:n]...)
